@@ -42,6 +42,11 @@ CoreNext ==
   \/ \E ok \in B : StatCall(ok)
   \/ StatsEndStep
   \/ \E ok \in B : PostEval(ok)
+  \/ \E ok \in B : CSameEval(ok)
+  \/ \E ok \in B, dec \in Decisions : TrialSameEval(ok, dec)
+  \/ \E ok \in B : ResetSameEval(ok)
+  \/ \E a \in Nat, ok \in B : TrialSetMemo(a, ok)
+  \/ \E a \in Nat, ok \in B : BuildSameEval(a, ok)
 
 CoreSpec == Init0 /\ [][CoreNext]_fvars
 
@@ -95,9 +100,19 @@ LEMMA StepCoherent == Coherent /\ [CoreNext]_fvars => Coherent'
   BY <1>20 DEF StatsEndStep, Terminable, Coherent, Pending
 <1>21. CASE \E ok \in B : PostEval(ok)
   BY <1>21 DEF PostEval, fvars, Coherent, Pending, B
+<1>22. CASE \E ok \in B : CSameEval(ok)
+  BY <1>22 DEF CSameEval, Coherent, Pending, B
+<1>23. CASE \E ok \in B, dec \in Decisions : TrialSameEval(ok, dec)
+  BY <1>23 DEF TrialSameEval, Decisions, Coherent, Pending, B
+<1>24. CASE \E ok \in B : ResetSameEval(ok)
+  BY <1>24 DEF ResetSameEval, Coherent, Pending, B
+<1>25. CASE \E a \in Nat, ok \in B : TrialSetMemo(a, ok)
+  BY <1>25 DEF TrialSetMemo, Coherent, Pending, B
+<1>26. CASE \E a \in Nat, ok \in B : BuildSameEval(a, ok)
+  BY <1>26 DEF BuildSameEval, Coherent, Pending, B
 <1> QED
   BY <1>1, <1>2, <1>3, <1>4, <1>5, <1>6, <1>7, <1>8, <1>9, <1>10, <1>11, <1>12,
-     <1>13, <1>14, <1>15, <1>16, <1>17, <1>18, <1>19, <1>20, <1>21 DEF CoreNext
+     <1>13, <1>14, <1>15, <1>16, <1>17, <1>18, <1>19, <1>20, <1>21, <1>22, <1>23, <1>24, <1>25, <1>26 DEF CoreNext
 
 THEOREM CoherentAlways == CoreSpec => []Coherent
 <1>1. Init0 => Coherent
@@ -161,9 +176,19 @@ LEMMA StepFailedEmpty == FailedEmpty /\ [CoreNext]_fvars => FailedEmpty' /\ NoRe
   BY <1>20 DEF StatsEndStep, Terminable
 <1>21. CASE \E ok \in B : PostEval(ok)
   BY <1>21 DEF PostEval, fvars
+<1>22. CASE \E ok \in B : CSameEval(ok)
+  BY <1>22 DEF CSameEval
+<1>23. CASE \E ok \in B, dec \in Decisions : TrialSameEval(ok, dec)
+  BY <1>23 DEF TrialSameEval, Decisions
+<1>24. CASE \E ok \in B : ResetSameEval(ok)
+  BY <1>24 DEF ResetSameEval
+<1>25. CASE \E a \in Nat, ok \in B : TrialSetMemo(a, ok)
+  BY <1>25 DEF TrialSetMemo
+<1>26. CASE \E a \in Nat, ok \in B : BuildSameEval(a, ok)
+  BY <1>26 DEF BuildSameEval
 <1> QED
   BY <1>1, <1>2, <1>3, <1>4, <1>5, <1>6, <1>7, <1>8, <1>9, <1>10, <1>11, <1>12,
-     <1>13, <1>14, <1>15, <1>16, <1>17, <1>18, <1>19, <1>20, <1>21 DEF CoreNext
+     <1>13, <1>14, <1>15, <1>16, <1>17, <1>18, <1>19, <1>20, <1>21, <1>22, <1>23, <1>24, <1>25, <1>26 DEF CoreNext
 
 THEOREM NoRefillAlways == CoreSpec => [][NoRefillStep]_fvars
 <1>1. Init0 => FailedEmpty
